@@ -31,7 +31,9 @@ def apply(src, der, act, tok):
     a = act['a']
     try:
         if a == 'new':
-            return Regions([tok[t] for t in act['items']]), None, 'ok'
+            items = [tok[t] for t in act['items']]
+            arg = {'list': lambda: items, 'tuple': lambda: tuple(items), 'generator': lambda: (x for x in items)}[act.get('form', 'list')]()
+            return Regions(arg), None, 'ok'
         if a == 'append':
             src.append(tok[act['item']])
         elif a == 'extend':
